@@ -36,6 +36,10 @@ type Result struct {
 	Nontrivial bool
 	States     []string // abstract state keys visited (for distinct_states)
 	Sample     any
+	// Prelude: what the worker process did before this run and that the run's
+	// outcome may depend on (e.g. earlier compilations in the same process); stored
+	// in the replay file and re-executed before the tape in a fresh process
+	Prelude any
 }
 
 func NewResult() *Result {
@@ -260,7 +264,7 @@ func WorkerMain(engines map[string]func() Engine) {
 		}
 		seenSig[fr.Violation.Signature] = true
 		rp := &Replay{Property: *prop, Engine: *prop, Seed: *seed, Run: run, Tier: *tier, Tape: min, OrigLen: len(rec),
-			Class: fr.Violation.Class, Signature: fr.Violation.Signature, Detail: fr.Violation.Detail, Digest: fr.Digest, Sample: fr.Sample}
+			Class: fr.Violation.Class, Signature: fr.Violation.Signature, Detail: fr.Violation.Detail, Digest: fr.Digest, Sample: fr.Sample, Extra: fr.Prelude}
 		if l, ok := fr.Sample.(interface{ LogLines() []string }); ok {
 			rp.Log = l.LogLines()
 		}
@@ -343,6 +347,9 @@ func doReplay(eng Engine, path string) int {
 	}
 	if sr, ok := eng.(interface{ SetRun(seed, run uint64) }); ok {
 		sr.SetRun(rp.Seed, rp.Run)
+	}
+	if pr, ok := eng.(interface{ ReplayPrelude(extra any) }); ok && rp.Extra != nil {
+		pr.ReplayPrelude(rp.Extra)
 	}
 	res := safeRun(eng, tape.NewReplay(rp.Tape), true)
 	if res.Trouble != "" {
